@@ -49,7 +49,11 @@ def gen_world(rng):
         if r < 0.45:
             return rng.choice(['int', 'double', 'bool']), 's'
         if owner is not None and owner['prot_nested'] and r < 0.7:
-            base, sx = '%s::P' % owner['name'], '(c %d)' % (100 + owner['id'])
+            # the protected nested class itself, or a public class / enum nested inside it (equally unnameable from outside)
+            which = rng.choice(['P', 'P', 'P::Deep', 'P::DE'])
+            base, sx = '%s::%s' % (owner['name'], which), '(c %d)' % (100 + owner['id'])
+            if which == 'P::DE':
+                return base, sx
         else:
             pool = [c for c in visible(owner['file'] if owner is not None else cur_file[0]) if not c['template']]
             if not pool:
@@ -202,7 +206,7 @@ def render_file(w, f):
             L.append(('template<class T> ' if k['template'] else '') + '%s %s {' % (k['keyword'], k['name']))
             if k['prot_nested']:
                 L.append('%s:' % k['prot_vis'])
-                L.append('  class P { public: int x; };')
+                L.append('  class P { public: int x; class Deep { public: int y; }; enum DE { DE_a, DE_b }; };')
             cur = None
             inreg = False
             for m in k['members']:
